@@ -18,6 +18,7 @@ LineOK ==
        LET tl == TransformLog(t, f, 1) el == EvalLog(t, f, 1) IN
        /\ Ev.check.log = CheckLog(t, f) /\ Ev.check.failed = CheckFails(t, f)
        /\ Ev.check.schemas = [n \in 1..Len(t) |-> FinalSchema(t, f, n)]
+       /\ Ev.check2 = SecondCheck(t)
        /\ Ev.transform.log = tl[1] /\ Ev.transform.failed = tl[2]
        /\ Ev.transform.result = (IF tl[2] THEN "" ELSE RenderT(t, 1))
        /\ (Evaluable(t) => Ev.eval.log = el[1] /\ Ev.eval.failed = el[2])
